@@ -146,8 +146,9 @@ theorem Connect.will_view (p : Connect) (w : Publish) (hi : p.FlagsInv) (hwill :
     simp only [Connect.willOccs] at v18 ⊢
     rw [v18]; rfl
 
-theorem E_connect (p : Connect) (h : p.InDomain) (b : Bytes) (hb : p.encode? = some b) :
-    p.abs.Legal ∧ p.abs.unparse = b ∧ p.abs.view = (Packet.connect p).view := by
+theorem E_connect_core (k : Nat) (p : Connect) (h : p.InDomainW k) (b : Bytes) (hb : p.encode? = some b) :
+    (p.abs.legal = true ∧ p.abs.body.length < 268435456 + k) ∧ p.abs.unparse = b
+      ∧ p.abs.view = (Packet.connect p).view ∧ p.body? = some p.abs.body := by
   obtain ⟨hfix, hname, hver, hi, hwok, hnone, rc, r1, r2, ru, rp, hu, hlen⟩ := h
   have hprops := p.props_eq hu
   have hflags := p.abs_flags hi (fun hw => (hnone hw).2.2)
@@ -172,7 +173,7 @@ theorem E_connect (p : Connect) (h : p.InDomain) (b : Bytes) (hb : p.encode? = s
     simp [Connect.abs, SPacket.firstByte, hfix]
   rw [henc] at hb
   simp only [Option.some.injEq] at hb
-  refine ⟨⟨?_, hlen _ hbody⟩, hb, ?_⟩
+  refine ⟨⟨?_, hlen _ hbody⟩, hb, ?_, hbody⟩
   · simp only [Connect.abs, SPacket.legal, p.occs_legal r1 r2 hu, Bool.true_and, Bool.and_eq_true]
     refine ⟨⟨⟨?_, ?_⟩, ?_⟩, ?_⟩
     · simpa [Spec.SPacket.strOK, strOK] using rc
@@ -232,5 +233,10 @@ theorem E_connect (p : Connect) (h : p.InDomain) (b : Bytes) (hb : p.encode? = s
       simp only [Option.map_some, Option.isSome_some]
       rw [wv1, wv2]
       simp [vvOf, Connect.fCleanStart, Connect.mqtt5, hname, hver]
+
+theorem E_connect (p : Connect) (h : p.InDomain) (b : Bytes) (hb : p.encode? = some b) :
+    p.abs.Legal ∧ p.abs.unparse = b ∧ p.abs.view = (Packet.connect p).view := by
+  obtain ⟨h1, h2, h3, _⟩ := E_connect_core 0 p h b hb
+  exact ⟨h1, h2, h3⟩
 
 end Mq
